@@ -4,7 +4,8 @@ From Coq Require Import List ZArith NArith PArith Bool Lia ZifyBool ZifyNat Zify
 Import ListNotations.
 From Verif Require Import Common.Base Model.SampleBuilder Model.SampleBuilderSpec
   Proofs.SampleBuilderArith Proofs.SampleBuilderIter Proofs.SampleBuilderMap Proofs.SampleBuilder
-  Proofs.SampleBuilderScan Proofs.SampleBuilderBuild Proofs.SampleBuilderTop Proofs.SampleBuilderInside.
+  Proofs.SampleBuilderScan Proofs.SampleBuilderBuild Proofs.SampleBuilderFifo Proofs.SampleBuilderTop
+  Proofs.SampleBuilderInside Proofs.SampleBuilderOrder Proofs.SampleBuilderOnce.
 Open Scope N_scope.
 
 (* ---------- no model fault ---------- *)
@@ -133,3 +134,56 @@ Qed.
 (* the guard of no_fault_partial holds of the usual configuration *)
 Lemma fault_free_cfg_50 : fault_free_cfg (wcfg 50).
 Proof. repeat split; cbn; [discriminate|lia]. Qed.
+
+(* ---------- order and once, for the samples the Pops return ---------- *)
+Lemma emitted_in_order : forall is_head is_tail unmarshal c ops,
+  history_ok ops ->
+  log_ok (evlog (fst (run is_head is_tail unmarshal c ops))) ->
+  N.of_nat (List.length (built (fst (run is_head is_tail unmarshal c ops)))) < 65536 ->
+  in_order (snd (run is_head is_tail unmarshal c ops)).
+Proof.
+  intros is_head is_tail unmarshal c ops Hh Hlog Hfew.
+  destruct (pops_in_build_order is_head is_tail unmarshal c ops Hfew) as (pending & E).
+  apply (in_order_prefix _ pending). rewrite <- E. apply built_in_order; assumption.
+Qed.
+
+Lemma emitted_once : forall is_head is_tail unmarshal c ops,
+  fault_free_cfg c -> history_ok ops ->
+  clean_log (evlog (fst (run is_head is_tail unmarshal c ops))) ->
+  N.of_nat (List.length (built (fst (run is_head is_tail unmarshal c ops)))) < 65536 ->
+  each_packet_once (snd (run is_head is_tail unmarshal c ops)).
+Proof.
+  intros is_head is_tail unmarshal c ops (H1 & H2 & H3) Hh Hcl Hfew.
+  destruct (pops_in_build_order is_head is_tail unmarshal c ops Hfew) as (pending & E).
+  pose proof (built_once is_head is_tail unmarshal c H1 H2 H3 ops Hh Hcl) as Hn.
+  unfold each_packet_once in *. rewrite E, flat_map_app in Hn. eapply NoDup_app_l. exact Hn.
+Qed.
+
+(* a history that satisfies both guards: three frames of three packets across the
+   sequence-number wrap, one pair swapped in delivery, a Pop after every Push, a
+   single-packet frame, Flush: four samples *)
+Definition w_ord_ops : list op :=
+  [OPush (wp 0 65534 100 1); OPop; OPush (wp 1 65535 100 0); OPop; OPush (wp 2 0 100 2); OPop;
+   OPush (wp 3 1 200 1); OPop; OPush (wp 5 3 200 2); OPop; OPush (wp 4 2 200 0); OPop;
+   OPush (wp 6 4 300 1); OPop; OPush (wp 7 5 300 0); OPop; OPush (wp 8 6 300 2); OPop;
+   OPush (wp 9 7 400 3); OPop; OPop; OFlush; OPop; OPop].
+
+Lemma w_ord_guards :
+  history_ok w_ord_ops /\
+  log_ok (evlog (fst (wrun (wcfg 50) w_ord_ops))) /\
+  clean_log (evlog (fst (wrun (wcfg 50) w_ord_ops))) /\
+  N.of_nat (List.length (built (fst (wrun (wcfg 50) w_ord_ops)))) < 65536 /\
+  map (fun x => map p_seq (s_pkts x)) (snd (wrun (wcfg 50) w_ord_ops))
+  = [[65534; 65535; 0]; [1; 2; 3]; [4; 5; 6]; [7]].
+Proof.
+  split; [apply history_ok_intro; [reflexivity|repeat constructor; cbn; intuition discriminate]|].
+  split; [apply log_okb_ok; vm_compute; reflexivity|].
+  split; [apply clean_logb_ok; vm_compute; reflexivity|].
+  split; vm_compute; reflexivity.
+Qed.
+
+(* the two guards are violated by the recorded witnesses they are meant to exclude *)
+Lemma guards_exclude_witnesses :
+  log_okb (evlog (fst (wrun (wcfg 0) w_order_ops))) = false /\
+  clean_logb (evlog (fst (wrun (wcfg 50) w_once_ops))) = false.
+Proof. split; vm_compute; reflexivity. Qed.
